@@ -292,6 +292,30 @@ theorem wideR_unroutable_untouched (c : Cfg) (rw : Nat) (idx : Key → Nat) (rou
       exact hinv k hk _
     · simp only [wupd, hi, if_false]; exact hinv k hk i
 
+/-- with pure routing, whatever the router's internal state does and whatever other containers do, the shards
+    evolve exactly as in `MW` with that routing function -/
+theorem pure_router_reach {ρ : Type} (c : Cfg) (rw : Nat) (R : Router ρ) (r0 : ρ) (idx : Key → Nat)
+    (hp : R.Pure idx) : ∀ s, (MWH c rw R r0).Reach s → (MW c rw idx).Reach s.1 := by
+  apply LTS.inv_of_step (MWH c rw R r0) (fun s => (MW c rw idx).Reach s.1)
+  · exact LTS.Reach.init
+  · intro s a s' hinv hst
+    cases a with
+    | other =>
+      have : s' = (s.1, R.other s.2) := by
+        have h : hstep c rw R s .other = some s' := hst
+        simp [Nv.C01.hstep] at h; exact h.symm
+      rw [this]; exact hinv
+    | act a =>
+      have h : hstep c rw R s (.act a) = some s' := hst
+      simp only [Nv.C01.hstep, hp s.2 a.key] at h
+      split at h
+      · cases h
+      · rename_i s1 hs1
+        cases h
+        apply LTS.Reach.step hinv (a := a)
+        show wstep c rw idx s.1 a = _
+        simp [wstep, hs1]
+
 /-- the sharded map is step for step the single map obtained by reading every key from its shard -/
 theorem wide_step_proj (c : Cfg) (rw : Nat) (idx : Key → Nat) (ws ws' : WState) (a : Act)
     (h : wstep c rw idx ws a = some ws') : step c rw (wproj idx ws) a = some (wproj idx ws') := by
